@@ -12,7 +12,7 @@ package main
 //   case 3 kind=nextret scen=unicast backlog=2
 //   res 3 early=0 delivered=1          early: B's Next returned while the consumer was still blocked
 //                                      delivered: the value had reached the observer when B's Next returned
-// The model side (RoProps/C10 subjects_wellLocked + unicast_delivers_outside_lock over the regenerated lock skeletons:
+// The model side (RoProps/C10 subjects_wellLocked, unicast_subscribe_locked_replay, unicast_delivers_outside_lock over the regenerated lock skeletons:
 // Subscribe and its replay are one critical section; Next with an observer delivers before it returns) says early=0
 // delivered=1 for every case.
 
